@@ -447,8 +447,12 @@ def check(repo: Repo, run: Run) -> None:
     for ident, contract in WRITER_CONTRACT.items():
         for m_, fn_, e0 in found_writers.get(ident, []):
             if e0.kind != "sub-store":
+                tb_ = e0.path if e0.path is not None else e0.base
+                while tb_ is not None and tb_.op in ("sub", "mut"):
+                    tb_ = tb_.a[0]
+                tname_ = tb_.a[1] if tb_ is not None and tb_.op == "attr" else "the thread/process tables"
                 run.ob("R4", m_, fn_, f"{ident}: stores one entry", False,
-                       f"{ident} performs {e0.kind} {e0.key} on the thread/process tables instead of storing one entry", line=e0.lineno)
+                       f"{ident} performs {e0.kind} {e0.key} on {tname_} instead of storing one entry", line=e0.lineno)
                 continue
             pth = e0.path if e0.path is not None else e0.base
             while pth.op in ("sub", "mut"):
